@@ -376,6 +376,26 @@ def c06_8(ctx):
     good = [c for c in cands if c[4] and c[5]]
     if good:
         spec, mod, fn, n, _, _ = good[0]
+        # which native witness programs does the rejection cover?  (helper predicates are opened one level)
+        base = {"is_p2wpkh": "p2wpkh", "is_p2wsh": "p2wsh", "is_p2tr": "p2tr"}
+        covered = set()
+        for t in cfg_of(fn).tests():
+            if isinstance(t.ast, ast.Call) and call_name(t.ast) in WITNESS_PREDICATES:
+                nm = call_name(t.ast)
+                if nm in base:
+                    covered.add(base[nm])
+                else:
+                    hm = ctx.repo.module("script")
+                    hf = hm.functions.get("Script." + nm) or hm.functions.get("ScriptPubKey." + nm)
+                    if hf is None:
+                        return [ctx.err(spec, "witness predicate %s() cannot be resolved" % nm, t.ast, mod)]
+                    ctx.note_fn(hm, hf)
+                    covered |= {base[call_name(c)] for c in ast.walk(hf) if isinstance(c, ast.Call) and call_name(c) in base}
+        missing = sorted({"p2wpkh", "p2wsh", "p2tr"} - covered)
+        if missing:
+            return [ctx.bad(spec, "the empty-scriptSig rule covers %s but not %s: a %s output spent with a non-empty scriptSig and an empty witness leaves extra stack items, "
+                                  "the witness arm is skipped and the program evaluates to true without any signature" % (sorted(covered), missing, missing[0].upper()),
+                            n.ast, mod, key="bip141-empty-scriptsig")]
         return [ctx.ok(spec, "a witness-program spend with a non-empty scriptSig is rejected (test at line %d)" % n.lineno, n.ast, mod, key="bip141-empty-scriptsig")]
     if cands:
         spec, mod, fn, n, _, _ = cands[0]
